@@ -204,6 +204,16 @@ func (s *Service) OnCommit(ctx context.Context, _ uint64, account string, confir
 	if len(generation.sharedVVecs) != len(generation.participants) {
 		return nil, nil, fmt.Errorf("have %d contributions, need %d, aborting", len(generation.sharedVVecs), len(generation.participants))
 	}
+	// The counts alone would also be met by a contribution from a peer that is not
+	// part of this generation: every listed participant must have contributed.
+	for _, participant := range generation.participants {
+		if _, exists := generation.sharedSecrets[participant.ID]; !exists {
+			return nil, nil, fmt.Errorf("missing contribution from participant %d, aborting", participant.ID)
+		}
+		if _, exists := generation.sharedVVecs[participant.ID]; !exists {
+			return nil, nil, fmt.Errorf("missing verification vector from participant %d, aborting", participant.ID)
+		}
+	}
 
 	privateKey := bls.SecretKey{}
 	for k := range generation.sharedSecrets {
